@@ -347,7 +347,7 @@ THEOREMS = ["C39_any_join_converges", "C39_any_join_is_join_of_sent", "C39_repli
             "C39_orset_delta_refuted", "C39_orset_delta_add_remove_refuted"]
 
 META = {
-    "ready": False,
+    "ready": True,
     "category": "proof",
     "technique": "Rocq proof (generic join convergence + per-type delta theorems/refutations) over the executable crdt model + differential replication programs + convergence oracle",
     "text": "Convergence under any order/duplication proved for every join and instantiated for the CRDT cores and for the replicator's store-or-merge rule; GCounter delta shipping proved for all histories (no-overflow guard); ORSet delta shipping refuted (two witnesses replayed on the real code) with the full-state partial theorem.",
